@@ -7,7 +7,7 @@ LEVEL = 'exploration'
 SHARDS = {'quick': 4, 'thorough': 16}
 RULE = (
     'Planted, two-band, noisy and long G-series datasets x grid steps (incl. records shifted so that min or max '
-    'water level is exactly a multiple of the step) through load, classify, set-zeta-grid, rise, recession (function '
+    'water level is exactly a multiple of the step, and grids of 4-10 mm that some rises do not cross at all) through load, classify, set-zeta-grid, rise, recession (function '
     'and CLI; field data in thorough).  Walker: rising_interval rows are paired rises, recession_interval rows are '
     'interstorm intervals; every stored crossing equals the mean crossing recomputed by closed-form chord inversion '
     'from that interval\'s own samples (rise: segment (0, zeta_initial) -> (depth of its own storm recomputed from the '
@@ -30,6 +30,7 @@ REQUIRED = {
         'rise:crossing-values-checked': 1000,
         'rise:line-segment-view-rows-checked': 50,
         'sessions-with-repeated-steps': 5,
+        'rise:classified-intervals-crossing-no-grid-level': 3,
     }
     for tier in ('quick', 'thorough')
 }
@@ -82,6 +83,14 @@ def run(ctx):
             if case.get('kind') != 'planted':
                 case['grid_step'] = rng.choice([0.125, 0.25, 0.5, 1.0, 2.0])
             case = put_extreme_on_level(case, rng)
+        if i % 5 == 4:
+            # a grid coarser than the smallest rises / recessions: some classified intervals cross no level
+            from .. import gen_planted
+            case = gen_planted.gen(rng, n_events=rng.randint(12, 25))
+            # grid step about the size of a typical rise of this record
+            zs = [v for _, v in case['z']]
+            ups = sorted(b - a for a, b in zip(zs, zs[1:]) if b - a > 0.5)
+            case['grid_step'] = float(max(2, round(1.5 * ups[len(ups) // 2]))) if ups else 8.0
         check_dataset(ctx, case, 'cli' if i < ncli else 'function', i, session=(i % 4 == 1))
     if s.get('field'):
         from . import c05
